@@ -54,7 +54,7 @@ var rewriteShapes = []string{
 	`(?>x|ab|a)b?`, `(?>xy|ab|a)b?`, `(?>hi|hello|he|there)l?`, `(?>b|ab|a|abc)c?`,
 	// \B after a loop of non-word characters at the end of the pattern: holds between two loop characters, may fail
 	// after the last one (known finding c05-nonboundary-end until fixed); sound when something disjoint follows
-	`\W+\B`, `-+\B`, `\D+\B`, `\W+\B\d*`, `[-.]+\B`, `\W+\B\w`, `\w+\B`, `\w+\b\s*`, `(?>\W+)\B`, `\s+\B`,
+	`(?>-+\B|-+)a`, `(?>-+\B(?:1*|x*)|-+)a`, `(?>\W+\B|\W)\w`, `\W+\B`, `-+\B`, `\D+\B`, `\W+\B\d*`, `[-.]+\B`, `\W+\B\w`, `\w+\B`, `\w+\b\s*`, `(?>\W+)\B`, `\s+\B`,
 	// regression shapes of fixed defects: right-to-left loops inside lookbehinds reached by ending-backtracking removal
 	// (cad7f1b), an overlapping nullable set loop stepped over by canBeMadeAtomic (af08c9d), atomic child loops under a
 	// quantifier (571b434; same tree with every gate, kept for the reference-semantics half of the leg)
